@@ -538,7 +538,7 @@ def run_case(case, ctx):
                     if via_cli:
                         cli_view(d, view, sel_ids, path)
                     else:
-                        project.create_linked_view(prefix=view, job_ids=sel_ids, path=path)
+                        project.create_linked_view(prefix=view, job_ids=ids_arg(sel_ids, op), path=path)
             except Exception as e:  # noqa
                 exc = e
             post = snapshot(view, ws)
@@ -570,7 +570,7 @@ def run_case(case, ctx):
             exc2 = None
             try:
                 with sandboxed(d):
-                    project.create_linked_view(prefix=view2, job_ids=sel_ids, path=path)
+                    project.create_linked_view(prefix=view2, job_ids=ids_arg(sel_ids, op), path=path)
             except Exception as e:  # noqa
                 exc2 = e
             scratch = snapshot(view2, ws)
@@ -592,7 +592,7 @@ def run_case(case, ctx):
                 exc3 = None
                 try:
                     with sandboxed(d):
-                        project.create_linked_view(prefix=view, job_ids=sel_ids, path=path)
+                        project.create_linked_view(prefix=view, job_ids=ids_arg(sel_ids, op), path=path)
                 except Exception as e:  # noqa
                     exc3 = e
                 again = snapshot(view, ws)
@@ -641,6 +641,14 @@ def run_case(case, ctx):
         ctx.cleanup(base)
     key = json.dumps(keyparts, sort_keys=True, default=str) if keyparts else None
     return {"model": model, "impl": impl, "oracle": oracle, "tags": sorted(set(tags)), "key": key}
+
+
+def ids_arg(sel_ids, op):
+    """the selection as the documented 'iterable of job ids': a list, a tuple, a generator or an iterator (one-shot)"""
+    if sel_ids is None:
+        return None
+    how = zlib.crc32(json.dumps(op, sort_keys=True, default=str).encode()) % 4
+    return [list(sel_ids), tuple(sel_ids), (i for i in list(sel_ids)), iter(list(sel_ids))][how]
 
 
 def cli_view(d, view, sel_ids, path):
